@@ -716,6 +716,16 @@ class Run:
             return dst
         if fn in self.externs and not e.get('clsp') and e.get('obj') is None:
             return self.externs[fn](self, e, [self.val(a) for a in e.get('a', [])])
+        if fn == 'memcmp' and not e.get('clsp') and len(e.get('a', [])) == 3:
+            a = [self.val(x) for x in e['a']]
+            if not (isinstance(a[0], tuple) and isinstance(a[1], tuple) and isinstance(a[2], int)):
+                raise Unsupported('`%s`' % pe(e))
+            u1 = [self.load(('P', a[0][1], a[0][2] + j), e.get('l')) for j in range(a[2])]
+            u2 = [self.load(('P', a[1][1], a[1][2] + j), e.get('l')) for j in range(a[2])]
+            if not all(isinstance(x, int) for x in u1 + u2):
+                raise Unsupported('`%s` on abstract bytes' % pe(e))
+            u1, u2 = [x & 255 for x in u1], [x & 255 for x in u2]
+            return (u1 > u2) - (u1 < u2)
         if fn in ('strcmp', 'strncmp') and not e.get('clsp'):
             a = [self.val(x) for x in e.get('a', [])]
             s1, s2 = self.cstring(a[0], e.get('l')), self.cstring(a[1], e.get('l'))
@@ -989,6 +999,8 @@ class Run:
                 return
             if args is not None and 1 <= len(args) <= 2 and all(T(self.f, strip_lv(a).get('t')).get('int') for a in args):
                 n_ = self.val(args[-1])
+                if isinstance(n_, int) and n_ < 0:
+                    raise OOB(('O', v['id']), n_, 0, v.get('l'))          # a string / array of negative length
                 if isinstance(n_, int) and 0 <= n_ < (1 << 20):
                     name = ('O', v['id'])
                     self.bufs[name] = [0] * (n_ + (1 if tv.get('rec') == 'asl::String' else 0))
